@@ -59,7 +59,7 @@ func (s *Summary) mapTerms(match func(*Term) *Term) {
 		}
 	}
 	for _, l := range s.Loops {
-		l.Cond, l.Over = f(l.Cond), f(l.Over)
+		l.Cond, l.Over, l.Entry = f(l.Cond), f(l.Over), f(l.Entry)
 		for j := range l.Exits {
 			l.Exits[j] = f(l.Exits[j])
 		}
